@@ -68,6 +68,22 @@ func runC13(w *World, r *Report) {
 	r.Rule("C13.unwrap", "error structs with a cause field implement Unwrap returning it (compose, schema, flow/**, internal/safe, internal/**)", 1)
 	ruleErrUnwrap(w, r, "C13.unwrap", "compose", "schema", "internal/safe", "internal", "internal/callbacks", "internal/serialization", "flow/agent", "flow/agent/react", "flow/agent/multiagent/host", "components/tool/utils", "components/tool")
 
+	r.Rule("C13.panic-opaque", "safe.panicErr exposes no Unwrap / Is / As: the run classifies task errors with errors.As / errors.Is (nested interrupt, InterruptAndRerun, interruptError), so a recovered panic whose VALUE happens to be or wrap such an error must not match — a panic is a failure of the node, with the node path, never an interrupt", 1)
+	{
+		pe := w.Named("internal/safe", "panicErr")
+		bad := ""
+		for _, t := range []types.Type{pe, types.NewPointer(pe)} {
+			ms := types.NewMethodSet(t)
+			for i := 0; i < ms.Len(); i++ {
+				switch n := ms.At(i).Obj().Name(); n {
+				case "Unwrap", "Is", "As":
+					bad = n
+				}
+			}
+		}
+		r.Check(bad == "", "C13.panic-opaque", "internal/safe.panicErr method set", pe.Obj().Pos(), "Error only: errors.Is / errors.As stop at the panic wrapper", "panicErr has method "+bad+": errors.As(err, *subGraphInterruptError) / errors.Is(err, InterruptAndRerun) in resolveInterruptCompletedTasks and isInterruptError in wrapGraphNodeError now see through a recovered panic — `panic(fmt.Errorf(\"…: %w\", err))` with an inner graph's interrupt error makes the run report an interrupt (checkpoint written, node re-run on resume) instead of the node's failure, and the node path is not attached")
+	}
+
 	r.Rule("C13.percent-w", "fmt.Errorf with an error operand on the run path uses %w", 30)
 	// armed: the framework's own propagation path between a node's return and the run's return, i.e.
 	// package compose functions reachable from the run entry points. Other packages are listed as info
